@@ -857,3 +857,11 @@ func BackEdges(fn *ssa.Function) []Edge {
 func ReachesInIteration(a, b ssa.Instruction) bool {
 	return InstrReaches(a, b, BackEdges(a.Parent()))
 }
+
+// ReturnsFromLoop lists the Return instructions control can reach by leaving
+// the loop body from somewhere other than its header (break/return/goto out of
+// the body), i.e. the early exits of the loop.
+func ReturnsFromLoop(body map[*ssa.BasicBlock]bool) []*ssa.Return {
+	_, early := OnlyHeaderExits(body)
+	return ReturnsReachable(early, nil)
+}
